@@ -15,7 +15,7 @@ RULE = ("Every chain m0 -> m1 -> ... of length 0..L whose elements are synthetic
         "fill_context, inside extract() of a frame suspended in the with body, inside extract() of a frame suspended in "
         "__aexit__, and inside extract() of a frame that holds sibling contexts outward/inward of it of which one unwraps to itself forever (its own fill fails; every other context of the frame must still go through the whole loop, and each failure is reported)}; plus straight chains of 99 and 101 steps. Reference: the documented loop; compared: the hook call log "
         "(elab(m0), unwrap(m0), elab(m1), ...), final obj / hide / description / children / inner_stack, and error iff > 100 "
-        "steps. state = (position in chain, context fields); transition = one hook call; every trace is replayed on the "
+        "steps. Each worker process starts with bare fill_context calls on generator-based managers before any extraction has run in it. state = (position in chain, context fields); transition = one hook call; every trace is replayed on the "
         "implementation.")
 ASSUMPTIONS = ["at exactly 100 successful unwrap steps either outcome is accepted: an error, or a complete steady state (the property says 'more than 100')"]
 
@@ -458,7 +458,29 @@ def check_case(case):
     return problems, stats
 
 
+COLD_CASES = [{"names": ["g0"], "elabs": ["builtin"], "last": None, "cold": True},
+              {"names": ["w0", "y1"], "elabs": ["desc", "builtin"], "last": None, "cold": True}]
+
+
+def cold_start_check():
+    """`fill_context gives the same result when called outside any extract as inside one` - also when it is the very
+    first thing this process asks of stackscope (no extraction has run yet, so nothing an extraction would have set up
+    lazily exists).  Must be called before anything else in a fresh process; returns problems."""
+    problems = []
+    for case in COLD_CASES:
+        for exiting in (False, True):
+            ref = reference(case, exiting)
+            got, log = run_bare(case, exiting)
+            problems += compare(ref, got, log, "first call in a fresh process/%s/exiting=%r" % ("+".join(case["names"]), exiting))
+    return problems
+
+
 def run(ctx):
+    problems = cold_start_check()
+    ctx.count("evaluations", 2 * len(COLD_CASES))
+    ctx.count("cold_start_checks")
+    if problems:
+        ctx.violation({"cold": True}, "; ".join(problems)[:1500], "cold")
     idx = 0
     states = set()
     for case in gen_cases(bounds(ctx.tier)["max_chain"]):
@@ -482,6 +504,8 @@ def run(ctx):
 
 
 def replay(case):
+    if case.get("cold"):
+        return [{"detail": p} for p in cold_start_check()]
     if "long" in case and "names" not in case:
         n = case["long"]
         case = {"names": ["w%d" % i for i in range(n + 1)], "elabs": ["desc"] * (n + 1), "last": None, "long": n}
